@@ -58,7 +58,16 @@ SlotAnyKind(u, f, name) ==
 (* Follow a reference of the expected kind found in file f until a concrete object.        *)
 (* Result: [id |-> ..] | [fail |-> "dangling" | "wrongkind" | "cycle"]                     *)
 RECURSIVE Follow(_, _, _, _, _)
+InlAt(c, site) == IF "inl" \in DOMAIN c /\ \E j \in DOMAIN c.inl : c.inl[j].site = site
+                   THEN c.inl[CHOOSE j \in DOMAIN c.inl : c.inl[j].site = site].id ELSE ""
+
 Follow(u, f, r, kind, seen) ==
+   IF r.frag # <<>> /\ r.frag[1] = "#inl"
+   THEN \* a JSON pointer into the root object of a whole-file target: the inline object at that site
+        LET tf == TargetFile(f, r)  i == SlotAt(u, tf, kind, "") IN
+        IF i = 0 \/ ~IsConcrete(u.slots[i].c) \/ InlAt(u.slots[i].c, r.frag[2]) = "" THEN [fail |-> "dangling"]
+        ELSE [id |-> InlAt(u.slots[i].c, r.frag[2]), slot |-> i]
+   ELSE
    LET tf == TargetFile(f, r)
        k  == IF r.frag = <<>> THEN kind ELSE r.frag[1]
        nm == IF r.frag = <<>> THEN "" ELSE r.frag[2]
@@ -107,7 +116,10 @@ AllResolvable(u) ==
 (* text of a ref *)
 RECURSIVE JoinSlash(_)
 JoinSlash(p) == IF p = <<>> THEN "" ELSE IF Len(p) = 1 THEN p[1] ELSE p[1] \o "/" \o JoinSlash(Tail(p))
-RefText(r) == JoinSlash(r.path) \o (IF r.frag = <<>> THEN "" ELSE "#/components/" \o r.frag[1] \o "/" \o r.frag[2])
+SiteKey(site) == CASE site = "properties" -> "properties/p" [] site = "items" -> "items" [] OTHER -> site
+RefText(r) == JoinSlash(r.path) \o (IF r.frag = <<>> THEN ""
+                                   ELSE IF r.frag[1] = "#inl" THEN "#/" \o SiteKey(r.frag[2])
+                                   ELSE "#/components/" \o r.frag[1] \o "/" \o r.frag[2])
 
 (* files other than the root that loading may read: targets of refs found in loaded documents *)
 RECURSIVE ReadClosure(_, _, _)
